@@ -172,12 +172,16 @@ func (P *Prog) sweepSet(c *propCfg) []*ssa.Function {
 		return false
 	}
 	seen := map[*ssa.Function]bool{}
+	isEntry := map[*ssa.Function]bool{}
+	var skipped []*ssa.Function
 	var work []*ssa.Function
+	defer func() { P.sweepInlined = skipped }()
 	for _, e := range c.Entries {
 		found := false
 		for k, fn := range P.funcs {
 			if k == e || strings.HasSuffix(k, "/"+e) {
 				work = append(work, fn)
+				isEntry[fn] = true
 				found = true
 			}
 		}
@@ -200,7 +204,14 @@ func (P *Prog) sweepSet(c *propCfg) []*ssa.Function {
 		if P.pureExternal(fn) {
 			continue
 		}
-		out = append(out, fn)
+		// small loop-free helpers are executed in place at every call site, where
+		// their panic obligations are charged to the caller; they are not
+		// verified again on their own with an arbitrary precondition
+		if !(isEntry[fn] || P.specFor(fn) != nil || !P.alwaysInlined(fn)) {
+			skipped = append(skipped, fn)
+		} else {
+			out = append(out, fn)
+		}
 		for _, b := range fn.Blocks {
 			for _, in := range b.Instrs {
 				switch x := in.(type) {
@@ -248,7 +259,7 @@ func cmdCheck(args []string) {
 	thorough := *tier == "thorough"
 	t0 := time.Now()
 	repo := envOr("VERIF_REPO", "/repo")
-	evidencePath := filepath.Join(verifDir, "evidence", prop+".json")
+	evidencePath := filepath.Join(envOr("VERIF_EVIDENCE_DIR", filepath.Join(verifDir, "evidence")), prop+".json")
 	os.MkdirAll(filepath.Dir(evidencePath), 0o755)
 	os.Remove(evidencePath)
 
@@ -281,6 +292,9 @@ func cmdCheck(args []string) {
 
 	claimed := readList(filepath.Join(verifDir, "baseline", prop+".claimed"))
 	undecided := readList(filepath.Join(verifDir, "baseline", prop+".undecided"))
+	if *writeBaseline {
+		claimed, undecided = map[string]string{}, map[string]string{}
+	}
 	kfs := readKnownFindings()
 	known := map[string]knownFinding{}
 	for _, k := range kfs {
@@ -302,6 +316,7 @@ func cmdCheck(args []string) {
 		go func(i int, j *funcJob) {
 			defer wg.Done()
 			gen <- struct{}{}
+			tf := time.Now()
 			var res *FuncResult
 			if j.fn == nil {
 				res = &FuncResult{Key: j.key, ContractErr: "contract names a function that does not exist: " + j.key}
@@ -309,7 +324,31 @@ func cmdCheck(args []string) {
 				res = P.verifyFunc(j.fn, thorough)
 			}
 			<-gen
-			vs := P.solveFunc(solver, res, thorough, func(o *Obl) bool { return oblInProp(o, prop, j.props) })
+			tg := time.Since(tf).Seconds()
+			budget := !j.sweep || res.Spec != nil
+			var skippedUnd []*Obl
+			vs := P.solveFuncBudget(solver, res, thorough, func(o *Obl) bool {
+				if !oblInProp(o, prop, j.props) {
+					return false
+				}
+				if _, und := undecided[o.Name]; und && !thorough && !*writeBaseline && !o.Cover {
+					skippedUnd = append(skippedUnd, o)
+					return false
+				}
+				return true
+			}, budget)
+			for _, o := range skippedUnd {
+				vs = append(vs, &Verdict{Obl: o, Status: "not-attempted(undecided-in-baseline)", Solver: "-"})
+			}
+			if os.Getenv("GOVC_PROGRESS") != "" {
+				nf := 0
+				for _, v := range vs {
+					if !v.Obl.Cover && v.Status != "unsat" {
+						nf++
+					}
+				}
+				fmt.Fprintf(os.Stderr, "[%6.1fs] %-70s gen %5.1fs solve %6.1fs obls %4d open %3d %s%s\n", time.Since(t0).Seconds(), shortKey(j.key), tg, time.Since(tf).Seconds()-tg, len(vs), nf, res.Unsupported, res.ContractErr)
+			}
 			results[i] = &fres{j, res, vs}
 		}(i, j)
 	}
@@ -602,7 +641,7 @@ func truncate(s string, n int) string {
 }
 
 func writeReplay(prop, name string, data map[string]interface{}) string {
-	dir := filepath.Join(verifDir, "replays", prop)
+	dir := filepath.Join(envOr("VERIF_REPLAY_DIR", filepath.Join(verifDir, "replays")), prop)
 	os.MkdirAll(dir, 0o755)
 	path := filepath.Join(dir, sanitize(name)+".json")
 	if len(filepath.Base(path)) > 200 {
